@@ -1,8 +1,10 @@
 package main
 
 import (
+	"context"
 	"encoding/json"
 	"fmt"
+	"runtime"
 	"strings"
 	"sync"
 	"sync/atomic"
@@ -85,13 +87,21 @@ func c12CloseRun(c *Ctx, cs c12CloseCase) {
 	var mu sync.Mutex
 	var setups []uint16
 	var ackOff int32 // != 0: SETUP packets are not acknowledged any more
+	var refuse int32 // != 0: SETUP packets are answered with something that is no acknowledgement (1: header-only TDS_BUF_ERROR, 2: header-only TDS_BUF_CLOSE, 3: a response packet with a DONE)
 	k.tr.OnWrite = func(rec xport.WriteRec) {
 		if len(rec.Data) == 8 && rec.Data[0] == byte(tds.TDS_BUF_SETUP) {
 			id := uint16(rec.Data[4])<<8 | uint16(rec.Data[5])
 			mu.Lock()
 			setups = append(setups, id)
 			mu.Unlock()
-			if atomic.LoadInt32(&ackOff) == 0 {
+			switch rf := atomic.LoadInt32(&refuse); {
+			case rf == 1:
+				k.tr.Feed(xport.Header{Type: byte(tds.TDS_BUF_ERROR), Status: xport.EOM, Length: 8, Channel: id}.Bytes())
+			case rf == 2:
+				k.tr.Feed(xport.Header{Type: byte(tds.TDS_BUF_CLOSE), Status: xport.EOM, Length: 8, Channel: id}.Bytes())
+			case rf == 3:
+				k.tr.Feed(xport.Packet(byte(tds.TDS_BUF_RESPONSE), xport.EOM, id, srv.Done(srv.TokDone, srv.DoneError, 0, 0)))
+			case atomic.LoadInt32(&ackOff) == 0:
 				k.tr.Feed(xport.Header{Type: byte(tds.TDS_BUF_PROTACK), Status: xport.EOM, Length: 8, Channel: id}.Bytes())
 			}
 			return
@@ -371,6 +381,132 @@ func c12CloseRun(c *Ctx, cs c12CloseCase) {
 		}
 		_ = cerr
 		r.Count("close_pending_newchannel_cases", 1)
+	case "main-channel-closed":
+		// channel 0 is closed on its own (its logout is answered); the
+		// logical channels go on. Packets for channel 0 arriving afterwards
+		// are packets for a channel that does not exist.
+		var cerr error
+		call := c13Go(func() { cerr = k.ch.Close() })
+		if !call.wait(75 * time.Second) {
+			if st, desc := c13HangReport(call); st {
+				fail("close/does-not-return/"+c13WaitClass(desc), "Close of channel 0 (logout answered at once) did not return within 75 s: "+desc)
+			} else {
+				r.Inconclusive("Close of channel 0 did not return: %s", desc)
+			}
+			return
+		}
+		_ = cerr
+		if call.pi != nil {
+			fail("panic/"+call.pi.Frame+"/close", "Close of channel 0 panicked: "+call.pi.Value)
+			return
+		}
+		for i, pkt := range [][]byte{
+			xport.Packet(byte(tds.TDS_BUF_RESPONSE), xport.EOM, 0, srv.Done(srv.TokDone, 0, 0, 0)),
+			xport.Header{Type: byte(tds.TDS_BUF_RESPONSE), Status: xport.EOM, Length: 8, Channel: 0}.Bytes(),
+			xport.Packet(byte(tds.TDS_BUF_NORMAL), 0, 0, srv.ReturnStatus(5)),
+		}[:cs.After] {
+			k.tr.Feed(pkt)
+			if _, ok := settle("after-close"); !ok {
+				return
+			}
+			dy := drainChannel(y, k.ctx)
+			_, inv, other := tagsOf(dy)
+			if len(other) > 0 || inv != 1 {
+				fail("invalid-channel/error-count/main-channel-closed", fmt.Sprintf("packet %d for channel 0 after channel 0 had been closed (logical channels %v still open) produced %d 'invalid channel' connection errors (other errors: %v); want exactly 1", i, ids, inv, other))
+				return
+			}
+		}
+		py, ty := response(yid, 0, 3, true)
+		k.tr.Feed(py...)
+		if _, ok := settle("after-close"); !ok {
+			return
+		}
+		dy := drainChannel(y, k.ctx)
+		if got, _, _ := tagsOf(dy); fmt.Sprint(got) != fmt.Sprint(ty) {
+			fail("routing/lost-or-duplicated/after-close", fmt.Sprintf("channel %d received tags %v, the peer sent %v after channel 0 had been closed", yid, got, ty))
+			return
+		}
+		r.Count("close_main_channel_closed_cases", 1)
+	case "refused-setup-during-traffic":
+		// the peer streams a long response to channel Y while further
+		// channels are requested, of which the peer refuses every other one
+		// (its answer to the SETUP is no acknowledgement): those NewChannel
+		// calls return an error, the others a channel, and Y's response is
+		// complete and in order
+		py, ty := response(yid, 0, 200, true)
+		fed := make(chan struct{})
+		go func() {
+			defer close(fed)
+			for _, p := range py {
+				k.tr.Feed(p)
+				runtime.Gosched()
+			}
+		}()
+		var gotY []int32
+		recvDone := make(chan struct{})
+		rctx, rcancel := context.WithTimeout(context.Background(), 60*time.Second)
+		defer rcancel()
+		go func() {
+			defer close(recvDone)
+			for len(gotY) < len(ty) {
+				pkg, err := y.NextPackage(rctx, true)
+				if err != nil {
+					return
+				}
+				if rs, ok := pkg.(*tds.ReturnStatusPackage); ok {
+					gotY = append(gotY, rs.ReturnValue)
+				}
+			}
+		}()
+		refusedOK, created := 0, 0
+		for i := 0; i < 6; i++ {
+			want := i%2 == 0 // refused
+			if want {
+				atomic.StoreInt32(&refuse, int32(cs.After))
+			} else {
+				atomic.StoreInt32(&refuse, 0)
+			}
+			var ch *tds.Channel
+			var err error
+			call := c13Go(func() { ch, err = k.conn.NewChannel() })
+			if !call.wait(30 * time.Second) {
+				if st, desc := c13HangReport(call); st {
+					fail("newchannel/does-not-return/refused-setup", fmt.Sprintf("NewChannel (setup refused: %v) did not return within 30 s: %s", want, desc))
+				} else {
+					r.Inconclusive("NewChannel did not return within 30 s: %s", desc)
+				}
+				return
+			}
+			switch {
+			case call.pi != nil:
+				fail("panic/"+call.pi.Frame+"/newchannel", "NewChannel panicked: "+call.pi.Value)
+				return
+			case want && err == nil:
+				fail("newchannel/refused-setup-reported-success", fmt.Sprintf("the peer answered the SETUP with something that is no acknowledgement (kind %d); NewChannel returned a channel", cs.After))
+				return
+			case !want && (err != nil || ch == nil):
+				fail("close/newchannel-failed-although-acknowledged", fmt.Sprintf("NewChannel returned %v after earlier setups had been refused", err))
+				return
+			case want:
+				refusedOK++
+			default:
+				created++
+			}
+		}
+		atomic.StoreInt32(&refuse, 0)
+		<-fed
+		select {
+		case <-recvDone:
+		case <-time.After(60 * time.Second):
+		}
+		rcancel()
+		<-recvDone
+		if fmt.Sprint(gotY) != fmt.Sprint(ty) {
+			fail("routing/lost-or-duplicated/refused-setup-during-traffic", fmt.Sprintf("channel %d received %d of %d tagged packages in order while setups of other channels were refused (first tags %v)", yid, len(gotY), len(ty), c12Head(gotY)))
+			return
+		}
+		r.Count("close_refused_setups", int64(refusedOK))
+		r.Count("close_setups_after_refused_ones", int64(created))
 	case "stray":
 		// packets of every header type, header-only and with a body, for an
 		// id that was never set up and for the id of the closed channel:
@@ -660,6 +796,17 @@ func c12CloseCases(c *Ctx) []c12CloseCase {
 		out = append(out, c12CloseCase{Family: "close", Kind: "stray-then-create", Channels: n, Queue: 16})
 		out = append(out, c12CloseCase{Family: "close", Kind: "connclose-vs-pending-newchannel", Channels: n, Queue: 16})
 	}
+	for _, n := range []int{2, 3} {
+		for after := 1; after <= 3; after++ {
+			out = append(out, c12CloseCase{Family: "close", Kind: "main-channel-closed", Channels: n, Queue: 16, After: after})
+		}
+	}
+	// After = what the peer answers instead of the acknowledgement
+	for after := 1; after <= 3; after++ {
+		for _, q := range []int{4, 256} {
+			out = append(out, c12CloseCase{Family: "close", Kind: "refused-setup-during-traffic", Channels: 2, Queue: q, After: after})
+		}
+	}
 	reps := 24
 	if !c.Quick() {
 		reps = 640
@@ -679,4 +826,11 @@ func runC12Close(c *Ctx) {
 		c.R.Count("close_cases", 1)
 		c12CloseRun(c, cs)
 	}
+}
+
+func c12Head(t []int32) []int32 {
+	if len(t) > 5 {
+		return t[:5]
+	}
+	return t
 }
